@@ -1,0 +1,8 @@
+//go:build verif
+
+package swamp
+
+import "github.com/hydraide/hydraide/app/core/hydra/swamp/vigil"
+
+// VigilCount returns the raw vigil counter of a swamp created by New (harness use only).
+func VigilCount(s Swamp) int64 { return vigil.Count(s.(*swamp).Vigil) }
